@@ -4,7 +4,6 @@ package main
 
 import (
 	"fmt"
-	"go/token"
 	"go/types"
 	"regexp"
 	"sort"
@@ -402,6 +401,7 @@ func asValue(in ssa.Instruction) ssa.Value {
 
 func ruleC16Probe(c *Ctx, m *Model) {
 	p := m.P
+	// the single function that inserts into DataID (for IRI provenance and the single-writer clause)
 	var fn *ssa.Function
 	for _, f := range m.subjectFns(false) {
 		if len(ormCallsIn(m, f, "DataID", "Insert")) > 0 && !isCanaryFn(f) {
@@ -415,78 +415,162 @@ func ruleC16Probe(c *Ctx, m *Model) {
 		c.Undecide("C16.PROBE", "dataid-insert", "-", "no function inserting into DataID found")
 		return
 	}
-	t := NewTermer(fn)
-	iriParam := fn.Params[len(fn.Params)-1]
-	// loop condition: (*phi).Iri != iri
-	var cond *ssa.BinOp
-	for _, b := range fn.Blocks {
-		for _, in := range b.Instrs {
-			bo, ok := in.(*ssa.BinOp)
-			if !ok || (bo.Op != token.NEQ && bo.Op != token.EQL) {
-				continue
-			}
-			x, y := t.T(bo.X), t.T(bo.Y)
-			if (strings.HasSuffix(x, ".Iri") && bo.Y == iriParam) || (strings.HasSuffix(y, ".Iri") && bo.X == iriParam) {
-				cond = bo
-			}
+	// The probe loop, on the explored paths of every x/data handler (whatever functions hold its parts):
+	//   candidate   every DataID.Get inside the loop is keyed by CreateID(hasher, iri, counter) with iri a
+	//               ToIRI result and counter a variable carried by that loop;
+	//   counter     that variable starts at 0 and grows by exactly 1 per iteration;
+	//   insert      DataID is written only by Insert{Id: the candidate just looked up, Iri: iri}, only
+	//               after that lookup came back NotFound;
+	//   exit        every committed path that has left the loop carries a positive equality between iri
+	//               and a value the loop carried (the Iri found or stored under the returned id) — a
+	//               bound on the number of probes, or any other way out, would hand back an id whose
+	//               row belongs to other data.
+	r := RunE1(m)
+	createRe := regexp.MustCompile(`^invoke:CreateID\((.+), (invoke:ToIRI\(.+\)#0), ([^,()]+)\)$`)
+	type agg struct{ bad string }
+	res := map[string]*agg{"candidate": {}, "counter": {}, "insert": {}, "exit": {}}
+	fail := func(k, why string) {
+		if res[k].bad == "" {
+			res[k].bad = why
 		}
 	}
-	if cond == nil {
-		c.Violate("C16.PROBE", "probe#exit-condition", p.Pos(fn.Pos()), "no comparison of the stored row's Iri with the requested iri found", nil)
-		return
-	}
-	exitOK := allSuccessDominatedBy(fn, cond, cond.Op == token.EQL)
-	c.Check(exitOK, "C16.PROBE", "probe#exit-condition", p.Pos(cond.Pos()), "every success return lies behind dataID.Iri == iri (the id returned is one whose stored row carries this IRI)")
-	// candidate id
-	var create *ssa.Call
-	for _, ci := range callsIn(fn) {
-		if call, ok := ci.(*ssa.Call); ok && call.Call.IsInvoke() && call.Call.Method.Name() == "CreateID" {
-			create = call
+	nGet, nIns, nExit, nCounter := 0, 0, 0, 0
+	for _, h := range r.Handlers {
+		if h.EP.Kind != "msg" {
+			continue
 		}
-	}
-	gets := ormCallsIn(m, fn, "DataID", "Get")
-	ins := ormCallsIn(m, fn, "DataID", "Insert")
-	if create == nil || len(gets) != 1 || len(ins) != 1 {
-		c.Violate("C16.PROBE", "probe#shape", p.Pos(fn.Pos()), "expected one CreateID, one DataID.Get and one DataID.Insert", nil)
-		return
-	}
-	// counter progress
-	okCounter := false
-	if ph, ok := create.Call.Args[1].(*ssa.Phi); ok && len(ph.Edges) == 2 {
-		var init, step ssa.Value
-		for _, e := range ph.Edges {
-			if _, isC := e.(*ssa.Const); isC {
-				init = e
-			} else {
-				step = e
+		loops := map[string]string{} // probe loop tag → iri term
+		for _, o := range h.Outs {
+			st := o.St
+			var lastGet *Event
+			for i := range st.events {
+				ev := &st.events[i]
+				if ev.Table == nil || ev.Table.Name != "DataID" || !inScope(o, ev) {
+					continue
+				}
+				switch {
+				case ev.Kind == "read" && ev.OpKind == "get" && ev.Method == "Get":
+					nGet++
+					lastGet = ev
+					key := ""
+					if len(ev.Keys) == 1 {
+						key = st.canon(ev.Keys[0])
+					}
+					mm := createRe.FindStringSubmatch(key)
+					if mm == nil || ev.Loop == "" {
+						if strings.Contains(key, "CreateID(") || ev.Loop != "" {
+							fail("candidate", "DataID.Get in "+h.Key+" is keyed by "+key+" (loop "+ev.Loop+"), not by CreateID(hasher, ToIRI(...), loop counter)")
+						}
+						continue // a lookup by a stored id (queries, attest on an existing anchor) is not a probe
+					}
+					if !strings.HasPrefix(mm[3], ev.Loop) {
+						fail("candidate", "the collision counter "+mm[3]+" of the candidate id is not a variable of the probe loop "+ev.Loop)
+					}
+					loops[ev.Loop] = mm[2]
+				case ev.Kind == "write":
+					nIns++
+					if ev.OpKind != "insert" {
+						fail("insert", "DataID is written by "+ev.Method+" in "+h.Key)
+						continue
+					}
+					if lastGet == nil || len(lastGet.Keys) != 1 {
+						fail("insert", "DataID.Insert in "+h.Key+" is not preceded by the lookup of the candidate id")
+						continue
+					}
+					key := st.canon(lastGet.Keys[0])
+					mm := createRe.FindStringSubmatch(key)
+					if mm == nil || st.canon(ev.Row["Id"]) != key || st.canon(ev.Row["Iri"]) != mm[2] {
+						fail("insert", fmt.Sprintf("inserted row is {Id: %s, Iri: %s}, required {Id: the candidate just looked up (%s), Iri: the iri}", st.canon(ev.Row["Id"]), st.canon(ev.Row["Iri"]), key))
+					}
+					nf := false
+					for _, f := range st.facts {
+						if f == fmt.Sprintf("+ErrIs(%d,NotFound)", lastGet.ErrID) {
+							nf = true
+						}
+					}
+					if !nf {
+						fail("insert", "DataID.Insert in "+h.Key+" is reachable without the candidate lookup having returned NotFound")
+					}
+				}
 			}
 		}
-		if v, isC := constInt(init); isC && v == 0 {
-			if bo, isB := step.(*ssa.BinOp); isB && bo.Op == token.ADD && bo.X == ph {
-				if s, isC := constInt(bo.Y); isC && s == 1 {
-					okCounter = true
+		for tag, iri := range loops {
+			// counter: the loop variable used in CreateID
+			for _, o := range h.Outs {
+				if o.Kind != exitLoopback || o.Loop != tag {
+					continue
+				}
+				for _, l := range o.St.loops {
+					if l.Tag != tag {
+						continue
+					}
+					for _, ph := range l.Phis {
+						hv := o.St.canon(ph.Havoc)
+						used := false
+						for i := range o.St.events {
+							if ev := &o.St.events[i]; ev.Table != nil && ev.Table.Name == "DataID" && ev.Kind == "read" && len(ev.Keys) == 1 {
+								if mm := createRe.FindStringSubmatch(o.St.canon(ev.Keys[0])); mm != nil && mm[3] == hv {
+									used = true
+								}
+							}
+						}
+						if !used {
+							continue
+						}
+						nCounter++
+						if init, back := o.St.canon(ph.Init), o.St.canon(ph.Back); init != "0" || back != "("+hv+" + 1)" {
+							fail("counter", fmt.Sprintf("collision counter %s starts at %s and becomes %s per iteration (required 0 and +1)", hv, init, back))
+						}
+					}
+				}
+			}
+			// exit: outcomes that have left the loop
+			for _, o := range h.Outs {
+				if !(o.Kind == exitReturn || (o.Kind == exitLoopback && o.Loop != tag && strings.HasPrefix(tag, o.Loop))) {
+					continue
+				}
+				mentions, eq := false, false
+				for _, f := range o.St.facts {
+					if strings.Contains(f, tag) {
+						mentions = true
+					}
+					if strings.HasPrefix(f, "+StrEq(") && strings.Contains(f, iri) && strings.Contains(f, tag) {
+						eq = true
+					}
+				}
+				for i := range o.St.events {
+					if ev := &o.St.events[i]; ev.Row != nil {
+						for _, v := range ev.Row {
+							if strings.Contains(o.St.canon(v), tag) {
+								mentions = true
+							}
+						}
+					}
+				}
+				if !mentions {
+					continue
+				}
+				nExit++
+				if !eq {
+					fail("exit", "a committed path of "+h.Key+" leaves the probe loop "+tag+" without the Iri stored under the returned id having been found equal to the requested iri, on path {"+clip(strings.Join(o.St.facts, " "), 260)+"}")
 				}
 			}
 		}
 	}
-	c.Check(okCounter, "C16.PROBE", "probe#counter", p.Pos(create.Pos()), "collision counter starts at 0 and grows by exactly 1 per iteration")
-	c.Check(t.T(create.Call.Args[0]) == "[]byte("+iriParam.Name()+")", "C16.PROBE", "probe#candidate-from-iri", p.Pos(create.Pos()), "candidate id is derived from the iri: "+t.T(create.Call.Args[0]))
-	c.Check(gets[0].Call.Args[1] == ssa.Value(create), "C16.PROBE", "probe#lookup-by-candidate", p.Pos(gets[0].Pos()), "the row is looked up under the candidate id")
-	fs, lit := literalRowFields(ins[0].Call.Args[1])
-	rowOK := lit && len(fs["Id"]) == 1 && fs["Id"][0] == ssa.Value(create) && len(fs["Iri"]) == 1 && fs["Iri"][0] == ssa.Value(iriParam)
-	c.Check(rowOK, "C16.PROBE", "probe#inserted-row", p.Pos(ins[0].Pos()), "row inserted on not-found is {Id: candidate, Iri: iri}")
-	// insert only on not found
-	okNF := false
-	if errEx := extractOf(gets[0], 1); errEx != nil {
-		for _, r := range *errEx.Referrers() {
-			if call, is := isNotFoundCall(asValue(r)); is {
-				if ifi, br := branchOf(call, true); ifi != nil && edgeDominates(ifi.Block(), br, ins[0].Block()) {
-					okNF = true
-				}
-			}
+	pos := p.Pos(fn.Pos())
+	for _, k := range []string{"candidate", "counter", "insert", "exit"} {
+		n := map[string]int{"candidate": nGet, "counter": nCounter, "insert": nIns, "exit": nExit}[k]
+		if res[k].bad != "" {
+			c.Violate("C16.PROBE", "probe#"+k, pos, res[k].bad, nil)
+		} else {
+			c.Check(n > 0, "C16.PROBE", "probe#"+k, pos, fmt.Sprintf("holds on all %d explored instances (%s)", n, map[string]string{
+				"candidate": "DataID lookups inside the probe loop are keyed by CreateID(hasher, ToIRI(...), loop counter)",
+				"counter":   "the collision counter starts at 0 and grows by exactly 1 per iteration",
+				"insert":    "DataID is written only by Insert{Id: candidate just looked up, Iri: iri} behind NotFound",
+				"exit":      "every committed path that has left the probe loop carries iri == the Iri the loop ended on",
+			}[k]))
 		}
 	}
-	c.Check(okNF, "C16.PROBE", "probe#insert-only-when-absent", p.Pos(ins[0].Pos()), "DataID.Insert is reached only through IsNotFound(err)==true")
 	// unique iri index in the schema
 	_, uniq := m.Tables["DataID"].Unique["GetByIri"]
 	c.Check(uniq, "C16.PROBE", "schema#DataID.iri-unique", "-", "DataID has a unique index on iri (generated GetByIri)")
@@ -573,11 +657,12 @@ func ruleIriProvenance(c *Ctx, m *Model, writer *ssa.Function, rule string) {
 
 // ruleC16Mgr decides the manager discipline on the explored paths (E1) of the two resolver handlers,
 // wherever the reads, tests and writes live:
-//   RegisterResolver — every state effect lies behind `manager == nil` (public resolver) or
-//     `manager == signer` for the resolver fetched by the id in the message, and the registration row
-//     names that resolver;
-//   DefineResolver — every committed path inserts exactly one Resolver whose manager is the signer,
-//     or nil exactly when the message says public, and whose URL is the message's.
+//
+//	RegisterResolver — every state effect lies behind `manager == nil` (public resolver) or
+//	  `manager == signer` for the resolver fetched by the id in the message, and the registration row
+//	  names that resolver;
+//	DefineResolver — every committed path inserts exactly one Resolver whose manager is the signer,
+//	  or nil exactly when the message says public, and whose URL is the message's.
 func ruleC16Mgr(c *Ctx, m *Model) {
 	p := m.P
 	r := RunE1(m)
